@@ -149,6 +149,14 @@ def rule_tables(chk, facts):
 
 
 def run(chk, facts, tier, only=None):
+    import de_rules
+    if not only or only == "C04.R2":
+        chk.run_rule("C04.R2", "type names are resolved before any test of the expected / wire type (aliases of opt/null/reserved are honoured)",
+                     lambda: de_rules.rule_unrolled(chk, facts))
+    if not only or only in ("C04.R3", "C04.R4"):
+        import c05
+        chk.include(c05, "C05.R1", "C04.R3", facts)     # what the checker accepts is what the spec's rules accept
+        chk.include(c05, "C05.R3", "C04.R4", facts)     # ... and stale memo entries cannot make it accept more
     if not only or only == "C04.R1":
         chk.run_rule("C04.R1", "checker rule table and decoder acceptance table agree in both directions",
                      lambda: rule_tables(chk, facts))
